@@ -13,6 +13,7 @@ RULE = ('grammar-derived valid texts over random schemas (no deprecated options;
         'code, >= 1 diagnostic, every diagnostic naming that file and that line; the judged text is given through cfg_parse_buf, cfg_parse_fp or cfg_parse(file), in 40% of cases after an earlier accepted parse (comments and blank lines) on the same context. Second clause: every accepted parse delivers no diagnostic. Third family: 19 malformed undeclared items under CFGF_IGNORE_UNKNOWN (the error paths of the skipping sub-parser), laid out over several lines, at top level and inside a section. '
         'non-trivial: the error point is preceded by a newline-bearing construct other than a blank line; distinct = case hash')
 
+LONGCOMMENT = ' /* ' + 'a long comment line\n' * 300 + ' */ '       # 6 KB, 300 newlines
 SEPS = [' ', ' ', '\n', '\n', '  \n\n ', '\t', '\r\n', ' # c\n', ' // c\n', ' /* c */ ', ' /* multi\n line\n*/ ', '\n# own line\n', '\n\n// x\n\n', ' /**/ ', ' #\n']
 
 
@@ -36,6 +37,8 @@ def layout(rng, toks, fancy):
     ends = []
     for i, t in enumerate(toks):
         sep = rng.choice(SEPS) if fancy else rng.choice([' ', '\n'])
+        if fancy and rng.random() < 0.004:
+            sep = LONGCOMMENT
         if i == 0 and rng.random() < 0.5:
             sep = ''
         out.append(sep)
